@@ -22,7 +22,7 @@
    * C14_text_ratio uses the kernel's primitive floats (evaluated by vm_compute only; no
      float axiom is used). *)
 From Coq Require Import NArith ZArith List Bool.
-From DvcData Require Import Base.Val Base.PyBase Base.PyStream Gen.Hash Model.HashStream Proofs.HashStreamProofs Proofs.HashStreamProofs2 Proofs.HashStreamProofs3 Proofs.HashStreamMD5.
+From DvcData Require Import Base.Val Base.PyBase Base.PyStream Gen.Hash Model.HashStream Proofs.HashStreamProofs Proofs.HashStreamProofs2 Proofs.HashStreamProofs3 Proofs.HashStreamProofs4 Proofs.HashStreamMD5.
 Import ListNotations.
 Open Scope N_scope.
 
@@ -119,6 +119,40 @@ Theorem C14_counts : forall s n data s',
   hs_hasher s' = hs_hasher s ++ data /\ hs_total_read s' = hs_total_read s + len data.
 Proof. exact plain_read_counts. Qed.
 Print Assumptions C14_counts.
+
+(* ---- histories on one stream object: reads interleaved with hash_value / total_read queries *)
+
+(* plain class, any history (any read sizes, any short reads, queries anywhere): every answer is
+   about exactly the chunks handed out before it - fed (what the digest is a function of) is
+   their concatenation, total_read its length - those chunks are a prefix of everything handed
+   out, the final state likewise, and nothing of the content is lost *)
+Theorem C14_history : forall content cuts ops s' ch answers,
+  run_ops false (init_stream content cuts) ops [] [] = Some (s', ch, answers) ->
+  Forall (fun a => let '(pre, fed, total) := a in
+                   fed = concat pre /\ total = len (concat pre) /\ exists tl, ch = pre ++ tl) answers /\
+  hs_hasher s' = concat ch /\ hs_total_read s' = len (concat ch) /\
+  concat ch ++ fo_rest (hs_fobj s') = content.
+Proof. exact history_plain. Qed.
+Print Assumptions C14_history.
+
+(* either class: an answer is the per-chunk feed ([hashed true] = d2u_data, [hashed false] = id)
+   of the chunks handed out before it, and its count *)
+Theorem C14_history_any : forall d2u content cuts ops s' ch answers,
+  run_ops d2u (init_stream content cuts) ops [] [] = Some (s', ch, answers) ->
+  Forall (fun a => let '(pre, fed, total) := a in
+                   fed = concat (map (hashed d2u) pre) /\ total = len fed /\ exists tl, ch = pre ++ tl) answers /\
+  hs_hasher s' = concat (map (hashed d2u) ch) /\ hs_total_read s' = len (hs_hasher s') /\
+  concat ch ++ fo_rest (hs_fobj s') = content.
+Proof. exact history. Qed.
+Print Assumptions C14_history_any.
+
+(* asking is invisible: the same history without its queries hands out the same chunks and ends
+   in the same state *)
+Theorem C14_queries_invisible : forall d2u ops s acc ans s' ch answers,
+  run_ops d2u s ops acc ans = Some (s', ch, answers) ->
+  exists answers', run_ops d2u s (filter is_read ops) acc [] = Some (s', ch, answers').
+Proof. exact queries_invisible. Qed.
+Print Assumptions C14_queries_invisible.
 
 (* ---- the legacy text-normalising stream *)
 
